@@ -130,6 +130,19 @@ def generate(tier, rng):
                     cases.append(dict(stream="faults", dims=ds, fault="an extra value column in the wide table", rows=r2 + [[rows[0][0], "9"]],
                                       layout=dict(where="columns", wide=w, header="names", omit_single=False, value_name="value"),
                                       allow_missing=am, allow_extra=ae, via="from_df"))
+    # a table without the column of a dimension whose items are 0..n-1 and with exactly n rows: the rows' own numbering (the
+    # default row labels 0..n-1) is not that column
+    for names, w in ((["A"], None), (["A", "r"], 1), (["r", "A"], 0), (["A", "s"], None), (["A", "Z"], None)):
+        ds = [DIMPOOL[x] for x in names]
+        ia = names.index("A")
+        nrows = int(np.prod([len(d["items"]) for d in ds]))
+        rows = dd.full_rows(ds, [Fraction(2 * i + 1, 2) for i in range(nrows)])
+        for am in (False, True):
+            for ae in (False, True):
+                for via in ("from_df", "set_values_from_df"):
+                    cases.append(dict(stream="faults", dims=ds, fault="column of a (items 0..n-1) left out, n rows", rows=[[r[0], str(r[1])] for r in rows],
+                                      layout=dict(where="columns", wide=w, header="names", omit_single=(w is None and len(ds) > 1), omit_dims=[ia], value_name="value"),
+                                      allow_missing=am, allow_extra=ae, via=via))
     return cases
 
 
